@@ -18,7 +18,7 @@ def describe(tier):
                 'empty result. non-trivial = absent keyword derived from a stored keyword.' % n,
         'bounds': 'N<=%d exhaustive over partitions; 3 stored keywords x 7 derivations + 5 others per database' % n,
         'assumptions': ['label/PRP collision of an absent keyword with a filler entry has probability <= |table| * 2^-64 per case'],
-        'must_be_nonzero': ['prefix', 'suffix', 'concat', 'plus-nul', 'maxlen', 'other-db-same-key'],
+        'must_be_nonzero': ['prefix', 'suffix', 'concat', 'plus-nul', 'lead-nul-stored', 'maxlen', 'other-db-same-key'],
     }
 
 
@@ -107,6 +107,8 @@ def run_case(r, seed, name, label, cfg, profile, kwlen, relation, only=None, cac
         if n != 0:
             stored = set(x for ids in db.values() for x in ids)
             kind = 'returns-stored-identifiers' if any(x in stored for x in list(got)) else 'returns-garbage'
+            if tag == 'lead-nul-stored':
+                kind += '/nul+stored-keyword'
             r.v(PROPERTY, name, 'nonempty', kind, c, 'empty result', got)
             r.outcome(kind)
         else:
